@@ -122,3 +122,21 @@ HARNESS(h_box_intersects_task)
     for (int i = 0; i < 6; i++) CHECK(bx[i] == box[i], "box is not modified");
     END;
 }
+HARNESS(h_box_extend_task)
+{   /* hand-written task of PyImathBox.cpp: ExtendByTask::execute(start,end,tid) ACCUMULATES points[start..end) into the worker's box
+       boxes[tid], whatever that box already holds (a worker id may be handed several sub-ranges), and touches no other worker's box */
+    RANGE; IN(u64, pstride); INA(i32, pts, 6 * N); ASSUME(pstride >= 1 && pstride <= 2);
+    static i32 pd[6 * N + 6]; IN(i32, guardv);
+    for (u64 j = 0; j < 6 * N + 6; j++) pd[j] = (j < 3 * L * pstride) ? pts[j] : guardv;
+    struct VA_T P; P.f0 = (void*)pd; P.f1 = L; P.f2 = pstride; P.f3 = 0; P.f4.f0 = 0; P.f5.f0 = 0; P.f5.f1.f0 = 0; P.f6 = 0;
+    INA(i32, b0, 18); static i32 bx[18]; for (int i = 0; i < 18; i++) bx[i] = b0[i];      /* three per-worker boxes, arbitrary contents */
+    IN(u32, tid); ASSUME(tid < 3);
+    struct T_class_std__vector V; V.f0.f0.f0.f0 = (void*)bx; V.f0.f0.f0.f1 = (void*)(bx + 18); V.f0.f0.f0.f2 = (void*)(bx + 18);
+    __verif_exc = 0; w_box_extend_task(&V, &P, s, e, tid); CHECK(__verif_exc == 0, "no exception");
+    i32 want[18]; for (int i = 0; i < 18; i++) want[i] = b0[i];
+    for (u64 i = 0; i < L; i++) if (i >= s && i < e)
+        for (int k = 0; k < 3; k++) { i32 c = pts[3 * i * pstride + k]; if (c < want[6 * tid + k]) want[6 * tid + k] = c; if (c > want[6 * tid + 3 + k]) want[6 * tid + 3 + k] = c; }
+    for (int i = 0; i < 18; i++) CHECK(bx[i] == want[i], "boxes[tid] == its previous value extended by points[start..end); the other workers' boxes untouched");
+    for (u64 j = 0; j < 6 * N + 6; j++) CHECK(pd[j] == ((j < 3 * L * pstride) ? pts[j] : guardv), "points (and the guard zone behind them) are not modified");
+    END;
+}
